@@ -150,6 +150,10 @@ def gen_expr(rng, h, ops, target, depth, ninputs, assign=None):
     return e
 
 
+def sty_to_conc(t):
+    return (t[1], [sty_to_conc(a) for a in t[2]])
+
+
 def has_fun(t):
     return t[0] == "o" and (t[1] == 3 or any(has_fun(a) for a in t[2]))
 
@@ -448,7 +452,7 @@ def main(tier: str, seed: int, replay: str | None = None) -> int:
             vs = E.m_vars(mvals[v], [])
             if not vs:
                 g = E.m_ground(mvals[v], {})
-                if not E.py_sub(h, g, (T[1], [])):
+                if not E.py_sub(h, g, sty_to_conc(T)):
                     rep.violation(f"ann_{stats['parsed']}_{v}", dict(payload, kind="oracle",
                         what="annotated sub-expression is not a subtype of its annotation", type=repr(g)),
                         has_input=True)
